@@ -433,4 +433,77 @@ mod verif_replay_expr_dm {
         assert_eq!(eval("2e2"), Ok("200".to_string()));
         assert_eq!(eval(".5 + 1"), Ok("1.5".to_string()));
     }
+
+    /// C10: string literals follow the JSON escapes the README refers to (fixed defects eb89b0b: \u with hex digits,
+    /// 3c0d8a4: \' inside strings) and a name starting with 'e' may follow a minus directly (8855ca1)
+    #[test]
+    fn verif_replay_string_escapes_and_minus_before_names() {
+        assert_eq!(eval(r"'caf\u00e9'"), Ok("café".to_string()), "\\u escape with hex digits");
+        assert_eq!(eval(r"'\u0041\u00DF'"), Ok("Aß".to_string()), "\\u escape with upper-case hex digits");
+        assert_eq!(eval(r"'it\'s'"), Ok("it's".to_string()), "escaped single quote");
+        assert_eq!(eval(r#""say \"hi\"""#), Ok("say \"hi\"".to_string()), "escaped double quote");
+        assert_eq!(eval(r"'a\\b\/c'"), Ok("a\\b/c".to_string()), "escaped backslash and slash");
+        assert!(eval(r"'\u00g1'").is_err(), "a non-hex digit in \\u must be an error");
+        let with_e = |src: &str| -> Result<String, String> {
+            use crate::expression_engine::parser::ExpressionParser;
+            let gd = create_global_data_arc();
+            let mut g = gd.lock().unwrap();
+            g.data.map.insert("a".to_string(), create_data_arc(Data::Integer(10)));
+            g.data.map.insert("e".to_string(), create_data_arc(Data::Integer(3)));
+            g.data.map.insert("Ex".to_string(), create_data_arc(Data::Integer(4)));
+            match ExpressionParser::execute(src.to_string(), &mut g) {
+                Ok(v) => Ok(v.lock().unwrap().to_string()),
+                Err(e) => Err(e),
+            }
+        };
+        assert_eq!(with_e("a - e"), Ok("7".to_string()));
+        assert_eq!(with_e("a-e"), with_e("a - e"), "`a-e` and `a - e`");
+        assert_eq!(with_e("a-Ex"), with_e("a - Ex"), "`a-Ex` and `a - Ex`");
+        assert_eq!(with_e("a -e"), with_e("a - e"), "`a -e` and `a - e`");
+    }
+
+    /// child half of `verif_replay_deep_expressions_do_not_overflow_the_stack`: does nothing unless asked through the environment
+    #[test]
+    fn verif_replay_depth_child() {
+        let Ok(spec) = std::env::var("VERIF_DEPTH_CHILD") else { return };
+        let (kind, n) = spec.split_once(':').unwrap();
+        let n: usize = n.parse().unwrap();
+        let text = match kind {
+            "parens" => "(".repeat(n) + "1" + &")".repeat(n),
+            "brackets" => "[".repeat(n) + &"]".repeat(n),
+            "braces" => "{'k':".repeat(n) + "1" + &"}".repeat(n),
+            "chain" => "1".to_string() + &"+1".repeat(n),
+            "not" => "!".repeat(n) + "true",
+            "calls" => "abs(".repeat(n) + "1" + &")".repeat(n),
+            _ => panic!("unknown kind"),
+        };
+        // a session thread has the default stack of a spawned thread
+        let h = std::thread::Builder::new().name("depth".to_string()).spawn(move || {
+            let _ = eval(&text);
+        }).unwrap();
+        let _ = h.join();
+    }
+
+    /// C11 (bounded): parsing and evaluating deeply nested or very long expressions ends with a value or an error,
+    /// it does not overflow the stack.  Each text runs in a child process (a stack overflow aborts the process).
+    #[test]
+    fn verif_replay_deep_expressions_do_not_overflow_the_stack() {
+        let exe = std::env::current_exe().unwrap();
+        let mut failed = Vec::new();
+        for kind in ["parens", "brackets", "braces", "calls", "chain", "not"] {
+            for n in [50usize, 20_000] {
+                let st = std::process::Command::new(&exe)
+                    .args(["verif_replay_depth_child", "--test-threads", "1"])
+                    .env("VERIF_DEPTH_CHILD", format!("{}:{}", kind, n))
+                    .stdout(std::process::Stdio::null())
+                    .stderr(std::process::Stdio::null())
+                    .status()
+                    .unwrap();
+                if !st.success() {
+                    failed.push(format!("{} x {} ({})", kind, n, st));
+                }
+            }
+        }
+        assert!(failed.is_empty(), "the process died (stack overflow) while parsing/evaluating: {}", failed.join(", "));
+    }
 }
